@@ -53,7 +53,7 @@ def convolve(x, w, mode="full", gpu=False):
         (w, gp.zeros([*w.shape[:-1], ns - nsw], dtype=w.dtype)), axis=-1
     )
     xw = gp.real(
-        gp.fft.irfft(gp.fft.rfft(x_, axis=-1) * gp.fft.rfft(w_, axis=-1), axis=-1)
+        gp.fft.irfft(gp.fft.rfft(x_, axis=-1) * gp.fft.rfft(w_, axis=-1), n=ns, axis=-1)
     )
     xw = xw[..., : (nsx + nsw)]  # remove 0 padding
     if mode == "full":
